@@ -56,6 +56,7 @@ pub fn external_about(id: &str) -> Vec<(&'static str, &'static str, &'static str
         "C19" => vec![
             ("py_apply", "Hypothesis: recursive JSON-representable Python objects (None, bool, ints incl. +-2^63, 2^64, 10^400, finite floats, nan / inf, text incl. astral characters and lone surrogates, lists, dicts with operator keys) and rule-shaped objects, as rule and data of jsonlogic_rs.apply x data {omitted, positional, keyword} x serializer {omitted, json.dumps, compact sorted UTF-8} x deserializer {omitted, json.loads, parse_float=Decimal, identity}; run against the dev and the release build of the extension. Oracle: the library linked into oracle_server evaluates the texts the chosen serializer produces (omitted data = null); the return value must be type-exactly equal to deserializer(answer); a library error or unparsable text must raise ValueError and nothing else.", "an optional argument omitted, an error outcome, non-ASCII text, or a number outside the float-exact integer range."),
             ("py_scalar_history", "Hypothesis: sequences of 2-8 calls in one interpreter whose rule or data is a bare scalar from a pool of ==-equal but differently spelled values (True / 1 / 1.0, False / 0 / 0.0 / -0.0, \"1\", \"\", None ...), default or explicit serializer: every call must return exactly (type- and sign-strict) what the library gives for its own texts - the wrapper keeps nothing between calls.", "at least two calls in the sequence."),
+            ("py_twin_history", "Hypothesis: a rule (14 fixed shapes and generated rules over 0 / 1 / True / False / 1.0 / 0.0 leaves) followed in the same interpreter by its numeric-tower twins - every bool / 0 / 1 / 0.0 / 1.0 leaf of rule and data replaced by an ==-equal value of another type: each call must return exactly what the library gives for its own texts.", "at least two calls."),
             ("py_concat_history", "Hypothesis: calls whose rule text followed by data text spell the same characters split at different points (apply(1, 23) then apply(12, 3); apply_serialized('2.5','6') then ('2','.56')): each must give what the library gives for its own two texts, malformed splits must raise ValueError.", "at least two calls."),
             ("py_mutation_history", "Hypothesis: the same dict / list object passed as data or as rule again and again with in-place edits in between (items appended, keys added / removed / changed): each call must reflect the current content.", "at least one edit."),
             ("py_apply_serialized", "Hypothesis: JSON texts (json.dumps / compact / indented dumps of generated objects, truncations, 25 malformed texts, number spellings such as 1e0 / 12345678901234567890123) as rule and data of apply_serialized x data {omitted, positional, keyword} x deserializer {omitted, json.loads, parse_float=Decimal, identity}; same oracle; texts that cannot be encoded as UTF-8 must raise UnicodeEncodeError (a ValueError).", "every case."),
